@@ -79,6 +79,9 @@ impl Gen<'_> {
         for _ in 0..self.rng.below(4) {
             f |= self.rng.pick(&extra);
         }
+        if k == 0 && self.rng.chance(1, 12) {
+            f |= 0x80; // PAT_4KIB_PAGE: on a 4 KiB leaf bit 7 is a memory-type bit, not "huge page"
+        }
         if k > 0 && self.rng.chance(1, 60) {
             f |= 0x1000; // PAT_HUGE_PAGE on a huge page: known finding F7b
         }
